@@ -124,6 +124,9 @@ func (this *code39Reader) DecodeRow(rowNumber int, row *gozxing.BitArray, hints 
 	}
 
 	if this.usingCheckDigit {
+		if len(result) == 0 {
+			return nil, gozxing.NewNotFoundException("empty result")
+		}
 		max := len(result) - 1
 		total := 0
 		for i := 0; i < max; i++ {
